@@ -318,3 +318,28 @@ func structOfType(t types.Type) *types.Struct {
 }
 
 func typesPointer(tn *ssa.Type) types.Type { return types.NewPointer(tn.Type()) }
+
+// extractOf2 returns the Extract #idx of a tuple-valued instruction.
+func extractOf2(v ssa.Value, idx int) ssa.Value {
+	for _, r := range *v.Referrers() {
+		if e, ok := r.(*ssa.Extract); ok && e.Index == idx {
+			return e
+		}
+	}
+	return nil
+}
+
+// fnValue returns the function denoted by a function-typed value: a closure
+// (with or without captured variables) or a plain function.
+func fnValue(v ssa.Value) *ssa.Function {
+	switch x := v.(type) {
+	case *ssa.MakeClosure:
+		f, _ := x.Fn.(*ssa.Function)
+		return f
+	case *ssa.Function:
+		return x
+	case *ssa.ChangeType:
+		return fnValue(x.X)
+	}
+	return nil
+}
